@@ -980,11 +980,14 @@ class ControlDependenceGraph(ProgramGraph):
         for pred in self.graph.predecessors(node):
             if pred in visited:
                 continue
-            visited.add(pred)
             if isinstance(pred, BasicBlockNode) and None not in self._branch_values(pred, node):
                 continue
             if pred == node:
                 continue
+            # Only mark predecessors that are actually traversed.  A predecessor seen
+            # first over a branch edge must still be followed over an edge without
+            # branch value; otherwise the result depends on the order of the edges.
+            visited.add(pred)
             if self._is_control_dependent_on_root(pred, visited):
                 return True
         return False
